@@ -133,11 +133,8 @@ namespace rkcommon {
     template <typename T>
     inline Optional<T>::Optional(Optional<T> &&other) : Optional()
     {
-      if (other.has_value()) {
-        reset();
-        value()  = std::move(other.value());
-        hasValue = true;
-      }
+      if (other.has_value())
+        emplace(std::move(other.value()));
     }
 
     template <typename T>
@@ -150,11 +147,8 @@ namespace rkcommon {
                     " convertible to the type parameter of the destination"
                     " Optional<>.");
 
-      if (other.has_value()) {
-        reset();
-        value()  = std::move(other.value());
-        hasValue = true;
-      }
+      if (other.has_value())
+        emplace(std::move(other.value()));
     }
 
 #if 0  // NOTE(jda) - see comment in declaration...
